@@ -65,7 +65,9 @@ def is_json_document(s):
 def nonfinite_prop(rng, p):
     """conjoin a constant-bearing atom to some predicate so INF/NAN/-INF reach the JSON"""
     c = gen.pick(rng, (('const', 'INF'), ('const', 'NAN'), A.neg(('const', 'INF')),
-                       ('set', (('const', 'NAN'), A.num('1'))), ('range', A.neg(('const', 'INF')), ('const', 'INF'), False, True)))
+                       ('set', (('const', 'NAN'), A.num('1'))), ('range', A.neg(('const', 'INF')), ('const', 'INF'), False, True),
+                       A.num('1.7976931348623157e308'), A.neg(A.num('1.7976931348623157e308')), A.num('4.9e-324'),
+                       A.num('1e308'), A.num('1e309')))  # finite extremes print as numbers, 1e309 is infinite
     atom = ('bin', 'in', A.fld('x'), c) if c[0] in ('set', 'range') else ('bin', '<', A.fld('x'), c)
     _, meta, scope, pat = p
     ev = pat[2]
